@@ -236,11 +236,31 @@ def reencoded_truncations(s):
     return out
 
 
+# characters whose lower() / upper() / casefold() changes the LENGTH of a string, or that are digits/spaces only in Unicode's eyes
+EXPANDERS = ["\u0130", "\u00df", "\u0149", "\u01f0", "\u0390", "\ufb01", "\u1e9e", "\u212a", "\u2163", "\u0661", "\uff11", "\u00b2", "\u3000", "\U0001d7d8"]
+
+
+def case_expanding_variants(s):
+    """the seed with its tail (after a short kept prefix such as '0x', 'bc1', 'nano_') replaced, at the same length, by one such character"""
+    out = []
+    L = len(s)
+    if L == 0 or L > 120:
+        return out
+    for keep in sorted({0, 2, 4, 5, min(L, 11)}):
+        if keep >= L:
+            continue
+        for ch in EXPANDERS:
+            out.append(s[:keep] + ch * (L - keep))
+        out.append(s[:keep] + "\u0130" * ((L - keep) // 2) + s[keep + (L - keep) // 2:])
+    return out
+
+
 def str_inputs(rng, seeds, n):
     """(must-run inputs, sampled inputs)"""
     must = list(WEIRD) + list(seeds)
     for s in seeds:
         must += reencoded_truncations(s)
+        must += case_expanding_variants(s)
     out = []
     for s in seeds:
         out.append(s)
